@@ -99,6 +99,7 @@ struct State {
     /// threads presumed blocked outside the lock model (running, but not at a scheduling point)
     detached: Vec<bool>,
     nondeterministic: bool,
+    inconclusive: bool,
     free_run: bool,
     free_go: bool,
 }
@@ -134,6 +135,8 @@ pub struct SimResult<R> {
     /// the baton had to be taken away from a thread blocked outside the model: the run is valid but
     /// not exactly replayable
     pub nondeterministic: bool,
+    /// the execution was given up unjudged (stall after a baton hand-over)
+    pub inconclusive: bool,
 }
 
 impl State {
@@ -596,6 +599,7 @@ pub fn simulate<R: Send + 'static>(
             held_victim: false,
             detached: vec![false; n],
             nondeterministic: false,
+            inconclusive: false,
             free_run: false,
             free_go: false,
         }),
@@ -673,6 +677,7 @@ pub fn simulate<R: Send + 'static>(
         }
         st.last_progress = Instant::now();
         let mut blocked_seen: Option<(usize, usize)> = None;
+        let mut blocked_samples = 0u32;
         loop {
             if st.finished == n {
                 break;
@@ -689,12 +694,18 @@ pub fn simulate<R: Send + 'static>(
                 if let Some(cur) = st.current {
                     if os_blocked(tids[cur].load(Ordering::SeqCst)) == Some(true) {
                         if blocked_seen == Some((cur, st.steps)) {
-                            presumed_blocked = true;
+                            // asleep at several consecutive samples, no scheduling point in between
+                            blocked_samples += 1;
+                            if blocked_samples >= 5 {
+                                presumed_blocked = true;
+                            }
                         } else {
                             blocked_seen = Some((cur, st.steps));
+                            blocked_samples = 0;
                         }
                     } else {
                         blocked_seen = None;
+                        blocked_samples = 0;
                     }
                 }
             }
@@ -719,10 +730,22 @@ pub fn simulate<R: Send + 'static>(
             }
             if st.last_progress.elapsed() > Duration::from_secs(cfg.stall_secs) {
                 let running = st.current;
-                st.fail(
-                    "stall",
-                    format!("simulated thread {:?} did not reach its next scheduling point within {} s (blocked outside the lock model?)", running, cfg.stall_secs),
-                );
+                if st.nondeterministic {
+                    // the baton had been handed over because its holder looked blocked in the kernel (on
+                    // a loaded machine a thread that merely waits for a page or for the allocator looks
+                    // the same): from then on two threads may run at once and the bookkeeping of who
+                    // holds the baton is best effort. A stall in that mode says nothing about the code
+                    // under test (a real deadlock on locks the model knows is reported by the model, one
+                    // on other locks by the free-running executions): give the execution up, unjudged.
+                    st.diverged = true;
+                    st.abort = true;
+                    st.inconclusive = true;
+                } else {
+                    st.fail(
+                        "stall",
+                        format!("simulated thread {:?} did not reach its next scheduling point within {} s (blocked outside the lock model?)", running, cfg.stall_secs),
+                    );
+                }
                 shared.wake_all();
                 // give the others a moment to unwind, then give up on whoever is stuck
                 let deadline = Instant::now() + Duration::from_secs(5);
@@ -757,6 +780,7 @@ pub fn simulate<R: Send + 'static>(
         lock_count: st.locks.len(),
         entropy_draws,
         nondeterministic: st.nondeterministic,
+        inconclusive: st.inconclusive,
     }
 }
 
